@@ -152,6 +152,8 @@ func undoBlocks(ch *chain.Chain, n int) (res string) {
 }
 
 type closedDir struct {
+	ClientOnly bool // re-opened by a client-mode fresh process only (library mode re-applies what is on disk above the snapshot by design)
+	Reapply    bool // … whose recovery loop is expected to re-apply blocks (blocks undone by the operator are still on disk)
 	Dir   string
 	Pre   *State
 	Label string
@@ -175,6 +177,10 @@ func (x *wideCtx) missOp(op Op, k **chainkit.Kit) bool {
 			x.wr.Results = append(x.wr.Results, res)
 			if strings.Contains(res, "panic") {
 				x.wr.Err = "Chain.UndoLastBlock called directly: " + res
+			} else if op.Name != "" {
+				if st := stateOf(c); st.Tip != x.wr.Hash[op.Name] {
+					x.wr.Err = fmt.Sprintf("Chain.UndoLastBlock x %d: the node is at %s, expected block %s (%s)", n, stateStr(st), op.Name, x.wr.Hash[op.Name][:16])
+				}
 			}
 		}
 	case "settle": // the asynchronous operations have returned (or N ms have passed)
@@ -193,7 +199,7 @@ func (x *wideCtx) missOp(op Op, k **chainkit.Kit) bool {
 			}
 			time.Sleep(2 * time.Millisecond)
 		}
-	case "undostart": // `gocoin -undo N`: clean shutdown; NewChainExt undoes N blocks and returns; clean shutdown; normal restart
+	case "undostart": // `gocoin -undo N`: clean shutdown; NewChainExt undoes N blocks and returns; clean shutdown; client-mode restart
 		func() {
 			defer func() {
 				if e := recover(); e != nil {
@@ -209,6 +215,7 @@ func (x *wideCtx) missOp(op Op, k **chainkit.Kit) bool {
 				s.saveAct, s.started = false, s.cnt["utxo.save:begin"]
 				s.mu.Unlock()
 			}
+			pre := stateOf((*k).Ch)
 			closeNode((*k).Ch)
 			lockDir(x.wr.Dir)
 			ku, err := chainkit.New(chainkit.Opts{Dir: x.wr.Dir, KeepDir: true, GenesisTime: genesisTime, BlockDBOpts: blockDBOpts(x.w.MaxDat),
@@ -216,9 +223,40 @@ func (x *wideCtx) missOp(op Op, k **chainkit.Kit) bool {
 			if err != nil {
 				panic(err)
 			}
+			*k = ku
+			// the node `gocoin -undo N` shuts down: N blocks below the block it was started at
+			und := stateOf(ku.Ch)
+			if und.Height+uint32(op.N) != pre.Height || (op.Name != "" && und.Tip != x.wr.Hash[op.Name]) {
+				x.wr.RestartDiff = fmt.Sprintf("NewChainExt(UndoBlocks = %d) on the cleanly closed directory (%s) returns at %s, expected block %s", op.N, stateStr(pre), stateStr(und), op.Name)
+				x.wr.Err = "-undo N at start-up does not go back N blocks: " + x.wr.RestartDiff
+				return
+			}
 			closeNode(ku.Ch)
+			if x.w.CloseCap {
+				cd := closedDir{Dir: fmt.Sprintf("%s/%s/closed%d/", filepathDir(x.wr.Snaps), "inhist", len(x.wr.Closed)), Pre: und, Label: "clean-close-after-undo-at-start-up", OpIdx: s.opIdx, NSub: s.nsub, ClientOnly: true, Reapply: true}
+				if copyTree(x.wr.Dir, cd.Dir) == nil {
+					x.wr.Closed = append(x.wr.Closed, cd)
+				}
+			}
+			// … and the next start (client mode) must come up exactly there: the undo is lasting
 			lockDir(x.wr.Dir)
-			*k = newKitOpt(x.wr.Dir, x.w.MaxDat)
+			kc, err := chainkit.New(chainkit.Opts{Dir: x.wr.Dir, KeepDir: true, GenesisTime: genesisTime, BlockDBOpts: blockDBOpts(x.w.MaxDat),
+				ChainOpts: &chain.NewChanOpts{DoNotRescan: true}}, vlib.NewRng(7))
+			if err != nil {
+				panic(err)
+			}
+			*k = kc
+			if !x.restartCheck("client-mode restart after `-undo N` (NewChainExt)", und, stateOf(kc.Ch)) {
+				return
+			}
+			// the client's recovery loop then re-applies the blocks that are still on disk
+			if res := clientRecover(kc.Ch); strings.HasPrefix(res, "panic") {
+				panic("recovery loop: " + res)
+			}
+			if st := stateOf(kc.Ch); st.Tip != pre.Tip || st.Dump != pre.Dump {
+				x.wr.RestartDiff = fmt.Sprintf("the recovery loop after `-undo %d` + restart gives %s, the blocks on disk lead to %s", op.N, stateStr(st), stateStr(pre))
+				x.wr.Err = "recovery after an undo at start-up: " + x.wr.RestartDiff
+			}
 		}()
 	default:
 		return false
@@ -274,8 +312,18 @@ func operatorUndo(name string, during bool, nUndo int, cont string, nSpend int) 
 // undoAtStart: `gocoin -undo N` between two clean shutdowns, then the normal restart re-applies what is on disk
 func undoAtStart(name string, n int) Workload {
 	w := Workload{Name: name, Free: true, Wide: "undo", Shape: "undo-at-start-up"}
-	w.Ops = append(w.Ops, skip(0), blk("A1", "", 2, "f1"), idle, waitsave, blk("A2", "A1", 1, "A1.0", "cb2"), blk("A3", "A2", 0), idle, waitsave,
-		Op{K: "undostart", N: n}, blk("A4", "A3", 1, "A1.1"), idle, waitsave, closeOp)
+	// A1 .. A<n+1> with a complete snapshot at the top, `-undo n` goes back to A1, then one more block on the top
+	w.Ops = append(w.Ops, skip(0), blk("A1", "", 2, "f1"))
+	for i := 2; i <= n+1; i++ {
+		b := blk(fmt.Sprintf("A%d", i), fmt.Sprintf("A%d", i-1), 0)
+		if i == 2 {
+			b = blk("A2", "A1", 1, "A1.0", "cb2")
+		}
+		w.Ops = append(w.Ops, b)
+	}
+	w.Ops = append(w.Ops, idle, waitsave, Op{K: "undostart", N: n, Name: "A1"},
+		blk(fmt.Sprintf("A%d", n+2), fmt.Sprintf("A%d", n+1), 1, "A1.1"), idle, waitsave, closeOp)
+	w.CloseCap = true
 	return w
 }
 
@@ -317,9 +365,9 @@ func missWorkloads(r *vlib.Run, g *vlib.Rng) (ws []Workload) {
 		operatorUndo("undo-idle", false, 1, "fork", 2),
 		staleSibling("sibling-restart", false, false, false, 1),
 	)
+	ws = append(ws, undoAtStart("undo-at-start", 1))
 	if r.Thorough() {
 		ws = append(ws,
-			undoAtStart("undo-at-start", 1),
 			operatorUndo("undo-during-save-two", true, 2, "fork", 3),
 			operatorUndo("undo-idle-two", false, 2, "extend", 3),
 			undoAtStart("undo-at-start-two", 2),
@@ -373,6 +421,18 @@ func (h *Harness) viewOf(dir string) *diskView {
 	_, e := os.Stat(dir + ".lock")
 	v.lockHas = e == nil
 	return v
+}
+
+// undoWindow: an undo/<height> file under the block the directory's snapshot names (that block and up to 7 ancestors) carries the
+// hash of ANOTHER block: a restart that has to undo these blocks reads another branch's undo data (the window of the known finding
+// undo-file-keyed-by-height), seen on the files themselves
+func (h *Harness) undoWindow(dir, snap string) bool {
+	for b, i := h.ref.blk(snap), 0; b != nil && i < 8; b, i = h.ref.blk(b.parent), i+1 {
+		if u, err := os.ReadFile(fmt.Sprint(dir, "undo/", b.height)); err == nil && (len(u) < 32 || hex.EncodeToString(u[:32]) != b.hash) {
+			return true
+		}
+	}
+	return false
 }
 
 // libExpect: what the tail of NewChainExt (DoNotRescan = false) does with this directory AS THE CODE IS WRITTEN
@@ -539,6 +599,7 @@ type closedJob struct {
 	cd   closedDir
 	mode string
 	lx   string
+	win  bool
 	res  *ChildRes
 }
 
@@ -548,11 +609,15 @@ type closedJob struct {
 func (h *Harness) closedStart(p *pending) {
 	for i, cd := range p.wr.Closed {
 		for _, mode := range []string{"client", "library"} {
+			if mode == "library" && cd.ClientOnly {
+				continue
+			}
 			dir := fmt.Sprintf("%s-%s/", strings.TrimRight(cd.Dir, "/"), mode)
 			if copyTree(cd.Dir, dir) != nil {
 				continue
 			}
-			j := &closedJob{i: i, cd: cd, mode: mode, lx: h.libExpect(h.viewOf(dir))}
+			v := h.viewOf(dir)
+			j := &closedJob{i: i, cd: cd, mode: mode, lx: h.libExpect(v), win: h.undoWindow(dir, v.snap)}
 			p.closed = append(p.closed, j)
 			p.wg.Add(1)
 			go func(j *closedJob, dir string) {
@@ -581,14 +646,14 @@ func (h *Harness) closedRestarts(p *pending) {
 			r.PropFail("clean-restart-differs:"+w.Shape, fmt.Sprintf("%s gives %s; before the shutdown: %s", where, stateStr(c.S1), stateStr(cd.Pre)), rep)
 		case c.Cycle != "":
 			r.PropFail("clean-restart-fails:"+w.Shape, where+" succeeds, but "+c.Cycle, rep)
-		case mode == "client" && (c.S2 == nil || c.S2.Tip != c.S1.Tip || c.S2.Dump != c.S1.Dump):
+		case mode == "client" && !cd.Reapply && (c.S2 == nil || c.S2.Tip != c.S1.Tip || c.S2.Dump != c.S1.Dump):
 			r.PropFail("clean-restart-recovers:"+w.Shape, fmt.Sprintf("%s: the recovery loop still changes the state: %s -> %s (%s)", where, stateStr(c.S1), stateStr(c.S2), c.Recovery), rep)
 		default:
-			h.curLib = lx
+			h.curLib, h.curWin = lx, j.win
 			if h.judge2(w, wr, ht, mode, c, "") {
 				r.Hit("clean-restart-inside-history:identity-holds/" + mode)
 			}
-			h.curLib = ""
+			h.curLib, h.curWin = "", false
 		}
 	}
 }
@@ -613,7 +678,7 @@ func (h *Harness) libTie(w Workload, wr *WlRun, m *Model, ht Hit, c *ChildRes) {
 	}
 	real := "panic"
 	if c.S1 != nil && c.Open == "ok" {
-		real = fmt.Sprintf("ok %d %s", m.blockID[c.S1.Tip], h.coinsToIDs(m, c.S1))
+		real = fmt.Sprintf("ok %d %s", m.idOf(c.S1.Tip), h.coinsToIDs(m, c.S1))
 	} else if !strings.HasPrefix(c.Open, "panic") {
 		r.Hit("library-tie:child-died")
 		return
